@@ -4,7 +4,11 @@ Contains only the property text and the scratch worktree path (nothing about /ve
 import json, sys
 pid = sys.argv[1]
 wt = sys.argv[2]
+variant = sys.argv[3] if len(sys.argv) > 3 else ''
 p = [json.loads(l) for l in open('/verif/properties.jsonl') if json.loads(l)['id'] == pid][0]
+extra = ""
+if variant == "offcentre":
+    extra = ("* AVOID the single most obvious place for this property (the main handler or the central helper everyone would look at first). Pick a LESS CENTRAL code path through which the property can still be broken: an admin / configuration path, one of the third-party venue integrations (Kamino / Drift / Solend handlers and mocks), a rarely used instruction variant or flag combination, a cache / bookkeeping field that another instruction later trusts, an account-constraint in an Accounts struct, or a small helper several callers share.\n ")
 print(f"""You are working alone in a scratch git worktree of the mrgnlabs/marginfi-v2 repository (a Solana/Anchor on-chain lending protocol written in Rust) at {wt}. The sandbox has NO network: build with `--offline`; the repository pins Rust 1.79 (rust-toolchain.toml). A warm `target/` directory has already been copied into the worktree so builds are incremental. Work ONLY inside {wt} (and /tmp scratch space); never touch /repo, never read or write anything under /verif or /root/.claude.
 
 THE PROPERTY (it holds, or is intended to hold, on the current code):
@@ -15,7 +19,7 @@ THE PROPERTY (it holds, or is intended to hold, on the current code):
 YOUR TASK: produce ONE realistic change to the program's source code (under programs/, type-crate/, id-crate/ — not the tests) that BREAKS this property, while the code still compiles and the existing test-suite result is unchanged.
  * "Existing tests unchanged": `cd {wt} && cargo test --workspace --no-fail-fast --offline` (or `cargo nextest run --workspace --no-fail-fast --offline`). In this sandbox many integration tests (those needing BPF program fixtures) already fail before any change; what matters is that the 172 tests that pass on the unchanged tree (names listed in /root/.vp/BASELINE.json under "stable_pass") still pass with your change. Running `cargo test --workspace --offline --lib` plus the `regression` tests of programs/marginfi/tests covers them; confirm before and after.
  * The change should look like something a developer could plausibly introduce (a refactoring slip, a wrong comparison, a dropped or misplaced check, a wrong constant/argument, a condition that is right in one sibling and wrong in another, two cooperating edits that each look fine alone...). Prefer a SUBTLE change that needs something specific to manifest — a particular multi-step sequence of instructions, an unusual input or configuration, a specific branch/feature, a boundary value, or two cooperating sites — rather than something that ordinary use would expose at once. Do not add new instructions or gratuitous dead code; keep it small.
- * Provide a DEMONSTRATION: a Rust unit test (or small program) that FAILS with your change applied and PASSES without it, exercising the real code (you may call internal functions / construct state structs directly in memory; integration tests through the BPF loader do not work here). Put the demonstration in a separate patch so that the source change can be applied without it.
+ {extra}* Provide a DEMONSTRATION: a Rust unit test (or small program) that FAILS with your change applied and PASSES without it, exercising the real code (you may call internal functions / construct state structs directly in memory; integration tests through the BPF loader do not work here). Put the demonstration in a separate patch so that the source change can be applied without it.
 
 DELIVERABLES (write them under {wt}/OUT/):
   1. patch.diff  — `git diff` of the source change ONLY (must apply with `git apply` to a clean checkout of the same commit).
